@@ -7,6 +7,7 @@
 //!                        headers, token strings) / err (message) / panic.
 //!   vtool extract  : the translator — walks /repo/src and prints the Generated/*.lean tables.
 mod extract;
+mod gates;
 mod ser;
 
 use std::io::{BufRead, Write};
